@@ -15,6 +15,59 @@ import (
 var codecTypes = []string{"Header", "AuthenStart", "AuthenReply", "AuthenContinue", "AuthorRequest", "AuthorReply", "AcctRequest", "AcctReply"}
 
 // errOnlyBlock: every path from block b ends in a return of a non-nil error (no success return reachable).
+// returnedAsIs: the error of the call is what the function returns (`return x.Validate()`): the function accepts
+// on that path exactly when the call does.
+func returnedAsIs(call *ssa.Call) bool {
+	n := 0
+	for _, rf := range refsOf(call) {
+		switch x := rf.(type) {
+		case *ssa.DebugRef:
+		case *ssa.Return:
+			if len(x.Results) == 0 || x.Results[len(x.Results)-1] != ssa.Value(call) {
+				return false
+			}
+			n++
+		default:
+			return false
+		}
+	}
+	return n > 0
+}
+
+// mayAcceptValue: the returned error value rv can be nil: the nil constant, or the result of another check of the
+// module handed straight on (`return x.Validate()`), which is nil when that check passes.
+func mayAcceptValue(rv ssa.Value, at *ssa.BasicBlock) bool {
+	if isNilConst(rv) {
+		return true
+	}
+	if call, ok := rv.(*ssa.Call); ok && isErrorType(call.Type()) {
+		// returned on the edge where it was found to be an error
+		errB, _ := errEdges(call)
+		for _, e := range errB {
+			if at != nil && (e == at || e.Dominates(at)) {
+				return false
+			}
+		}
+		if call.Common().IsInvoke() {
+			return true
+		}
+		if f := call.Common().StaticCallee(); f != nil && f.Pkg != nil && isModulePath(f.Pkg.Pkg.Path()) {
+			// constructors of error values never return nil
+			for _, b := range f.Blocks {
+				if ret, ok := b.Instrs[len(b.Instrs)-1].(*ssa.Return); ok && len(ret.Results) == 1 && b != f.Recover {
+					for _, v := range returnedValues(f, ret, 0) {
+						if _, isMI := v.(*ssa.MakeInterface); !isMI {
+							return true
+						}
+					}
+				}
+			}
+			return false
+		}
+	}
+	return false
+}
+
 func errOnlyBlock(fn *ssa.Function, b *ssa.BasicBlock) bool {
 	n := 0
 	for x := range blockReach(b, nil) {
@@ -24,7 +77,7 @@ func errOnlyBlock(fn *ssa.Function, b *ssa.BasicBlock) bool {
 		}
 		n++
 		for _, rv := range returnedValues(fn, ret, len(ret.Results)-1) {
-			if isNilConst(rv) {
+			if mayAcceptValue(rv, x) {
 				return false
 			}
 		}
@@ -218,7 +271,7 @@ func validateBounds(p *Program, V *ssa.Function) map[string]int64 {
 			continue
 		}
 		errB, _ := errEdges(call)
-		if len(errB) == 0 {
+		if len(errB) == 0 && !returnedAsIs(call) {
 			continue
 		}
 		allErr := true
@@ -327,7 +380,7 @@ func dominatesAllAccepts(fn *ssa.Function, b *ssa.BasicBlock) bool {
 		}
 		accept := false
 		for _, rv := range returnedValues(fn, ret, len(ret.Results)-1) {
-			if isNilConst(rv) {
+			if mayAcceptValue(rv, x) {
 				accept = true
 			}
 		}
